@@ -467,6 +467,124 @@ def pipe_case(rng, cid):
 
 
 # ---------------------------------------------------------------------------------------------------
+# (D) several packet switches alive in one process
+
+ASSUMPTIONS.append('switch cases: 2-3 SimplePacketSwitch / FairPacketSwitch objects are built in one process (one Environment or one each), every switch '
+                   'has its own sources and its own collectors behind its ports; oracle only (no replay): per switch, handed = out of ITS ports + counted '
+                   'tail drops of ITS ports + no route, same objects, nothing foreign, per-flow order')
+SWITCH_SERVERS = ['SP', 'VirtualClock', 'WFQ', 'DRR']
+
+
+def switch_case(rng, cid):
+    sws = []
+    for _ in range(rng.choice([2, 2, 3])):
+        n = rng.randint(1, 4)
+        sw = {'type': rng.choice(['simple', 'simple', 'fair']), 'nports': n, 'buffer': rng.choice([2, 3, 8, 64]),
+              'rate': rng.choice([800.0, 8000.0, 1e5]), 'npk': rng.randint(2, 8), 'env': rng.choice([0, 0, 0, 1])}
+        if sw['type'] == 'fair':
+            sw['server'] = rng.choice(SWITCH_SERVERS)
+            flows = list(range(n + 1))
+            sw['weights'] = {f: rng.choice([1, 2, 3]) for f in flows}
+            sw['fib'] = {f: rng.randrange(n) for f in flows if rng.random() < 0.8}       # a flow without an entry: no route, discarded by rule
+        sws.append(sw)
+    return {'cid': f'w{cid}', 'kind': 'switches', 'switches': sws, 'seed': rng.randrange(1 << 30), 'wire_late': rng.random() < 0.5}
+
+
+class Coll:
+    def __init__(self, env, k, j, log): self.env, self.k, self.j, self.log = env, k, j, log
+    def put(self, p): self.log.append((self.k, self.j, self.env.now, p))
+
+
+def run_switches(c):
+    """-> (oracle failures, packets handed in).  Clause restated (per switch): "each packet handed to an element is forwarded downstream
+    (here: out of one of THAT switch's ports), discarded by the element's documented rule (tail drop, counted; no route) or still held;
+    nothing is duplicated or invented, packets of one flow leave in the order they entered"."""
+    from onl.netdev import SimplePacketSwitch, FairPacketSwitch
+    rng = random.Random(c['seed'])
+    envs = {}
+    log, built, fails = [], [], []
+    def wire(k, sw):
+        for j, port in enumerate(sw.ports):
+            port.out = Coll(sw.env, k, j, log)
+    with quiet():
+        for k, d in enumerate(c['switches']):
+            env = envs.setdefault(d['env'], Environment())
+            if d['type'] == 'simple':
+                sw = SimplePacketSwitch(env, d['nports'], d['rate'], d['buffer'], element_id=f'sw{k}')
+            else:
+                sw = FairPacketSwitch(env, d['nports'], d['rate'], d['buffer'], {int(f): w for f, w in d['weights'].items()}, d['server'],
+                                      element_id=f'sw{k}')
+                sw.demux.fib = {int(f): p for f, p in d['fib'].items()}
+            built.append(sw)
+            if not c['wire_late']:
+                wire(k, sw)
+        if c['wire_late']:
+            for k, sw in enumerate(built):
+                wire(k, sw)
+    handed = collections.defaultdict(list)
+    stats = collections.Counter()
+    def src(env, k, d, sw):
+        pid = 1000 * (k + 1)
+        for _ in range(d['npk']):
+            yield env.timeout(rng.choice([0, 0, 0.5, 1, 0.125]))
+            for _ in range(rng.choice([1, 2, 3, 5])):
+                pid += 1
+                p = Packet(env.now, rng.choice([40, 100, 500, 1500]), pid, src=f's{k}', flow_id=rng.randrange(d['nports'] + 1), payload=('pl', pid))
+                handed[k].append((p, (p.packet_id, p.flow_id, p.src, p.size, p.time, p.payload)))
+                sw.put(p)
+    for k, (d, sw) in enumerate(zip(c['switches'], built)):
+        envs[d['env']].process(src(envs[d['env']], k, d, sw))
+    raised = None
+    try:
+        with quiet():
+            for e in sorted(envs):
+                envs[e].run(until=1e7)
+    except BaseException as x:
+        raised = f'{type(x).__name__}: {x}'
+    if raised:
+        return [{'what': f'a run with {len(built)} switches raised {raised}', 'signature': 'pipeline-raised'}], stats
+    for k, (d, sw) in enumerate(zip(c['switches'], built)):
+        name = f'switch {k} of {len(built)} ({d["type"]}{" " + d["server"] if d["type"] == "fair" else ""}, {d["nports"]} ports)'
+        mine = handed[k]
+        ids = {id(p) for p, _ in mine}
+        outs = [p for kk, _, _, p in log if kk == k]
+        foreign = [p for p in outs if id(p) not in ids]
+        if len(sw.ports) != d['nports']:
+            fails.append({'what': f'{name}: built with nports={d["nports"]} it has {len(sw.ports)} ports', 'signature': 'switch-invented'})
+        if foreign:
+            owner = next((kk for kk in handed if any(q is foreign[0] for q, _ in handed[kk])), None)
+            fails.append({'what': f'{name}: {len(foreign)} packets came out of its ports that were never handed to it (the first was handed to switch {owner})',
+                          'signature': 'switch-invented'})
+        cnt = collections.Counter(id(p) for p in outs)
+        if any(v > 1 for v in cnt.values()):
+            fails.append({'what': f'{name}: a packet came out of its ports twice', 'signature': 'switch-duplicate'})
+        if d['type'] == 'simple':
+            noroute = [p for p, _ in mine if not p.flow_id < d['nports']]
+            dropped = sum(pt.packets_dropped for pt in sw.ports)
+        else:
+            noroute = [p for p, _ in mine if str(p.flow_id) not in {str(f) for f in d['fib']}]
+            dropped = sum(pt.packets_dropped for pt in sw.egress_ports)
+        nr = {id(p) for p in noroute}
+        stats.update(handed=len(mine), tail_dropped=dropped, no_route=len(noroute), came_out=len(outs))
+        missing = [p for p, _ in mine if id(p) not in cnt and id(p) not in nr]
+        if len(missing) != dropped or any(id(p) in cnt for p in noroute):
+            fails.append({'what': f'{name}: {len(mine)} packets handed in, {len(set(cnt) & ids)} of them came out of its ports, {len(noroute)} had no route, '
+                                  f'its ports count {dropped} tail drops: {len(missing) - dropped} packets lost (held nowhere: the run ran out of events)',
+                          'signature': 'switch-lost'})
+        for p, snap in mine:
+            if (p.packet_id, p.flow_id, p.src, p.size, p.time, p.payload) != snap:
+                fails.append({'what': f'{name}: identifying fields of packet {snap[0]} changed in transit', 'signature': 'elem-fields'})
+                break
+        for f in range(d['nports'] + 1):
+            a = [id(p) for p, _ in mine if p.flow_id == f and id(p) in cnt]
+            b = [id(p) for p in outs if p.flow_id == f and id(p) in ids]
+            if a != b and not any(v > 1 for v in cnt.values()):
+                fails.append({'what': f'{name}: packets of flow {f} left in a different order than they entered', 'signature': 'elem-flow-order'})
+                break
+    return fails[:4], stats
+
+
+# ---------------------------------------------------------------------------------------------------
 
 def run(ctx):
     rng = random.Random(f'C08-{ctx.seed}')
@@ -476,6 +594,7 @@ def run(ctx):
     else:
         n = 300 if ctx.quick else 6000
         cases = [gen_case(rng, i) for i in range(n)] + [sink_case(rng, i) for i in range(n)] + [pipe_case(rng, i) for i in range(n)]
+        cases += [switch_case(rng, i) for i in range(n // 3)]
     impl, text, dis, orc = {}, [], [], []
     hist = collections.Counter()
     owner = {}
@@ -489,6 +608,12 @@ def run(ctx):
             a, t, f = run_sink(c); impl.update(a); text += t
             hist['sink:with_second_sink_in_the_same_environment'] += 1 if c.get('peer') else 0
             for k in a: owner[k] = c
+        elif c['kind'] == 'switches':
+            f, st = run_switches(c)
+            for kk, v in st.items(): hist['switch_packets:' + kk] += v
+            hist['switches_in_one_process'] += len(c['switches'])
+            for d in c['switches']: hist['switch:' + d['type'] + (':' + d['server'] if d['type'] == 'fair' else '')] += 1
+            if len({d['env'] for d in c['switches']}) > 1: hist['switch_cases_over_two_environments'] += 1
         else:
             pr = Pipe(c).run()
             f = pipe_oracle(c, pr)
@@ -508,7 +633,7 @@ def run(ctx):
     samples = [c for c in cases if c['kind'] == 'pipe'][:2]
     nontriv = len({json.dumps(c, sort_keys=True, default=str) for c in cases if c['kind'] != 'pipe' or len(c['chain']) > 1 or c['fan']})
     cov = {'evaluations': len(cases), 'distinct_nontrivial': nontriv,
-           'rule': 'generator scripts, sink delivery scripts and random pipelines (chains of 1-4 elements from 10 kinds, optional FlowDemux / FIBDemux fan-out/fan-in, the FIBDemux with a route update during the run); non-trivial = distinct case (pipelines: more than one element or a fan-out)',
+           'rule': 'generator scripts, sink delivery scripts and random pipelines (chains of 1-4 elements from 10 kinds, optional FlowDemux / FIBDemux fan-out/fan-in, the FIBDemux with a route update during the run); non-trivial = distinct case (pipelines: more than one element or a fan-out); oracle-only cases with 2-3 packet switches alive in one process',
            'samples': samples, 'traces_validated_against_impl': len(impl) - len(dis), 'packets_through_pipelines': npk,
            'operation_histogram': dict(sorted(hist.items()))}
     return {'coverage': cov, 'disagreements': dis, 'oracle_failures': orc}
